@@ -1,5 +1,6 @@
 import WhVerif.Util.Proto
 import WhVerif.Model.C17
+import WhVerif.Model.C17Run
 namespace WhVerif.Driver.C17
 open Lean WhVerif.Proto WhVerif.C17
 open WhVerif.C10 (RV)
@@ -33,7 +34,87 @@ def errName : Err → String
 def ofCons (c : Cons) : Json :=
   Json.arr #[ofNat c.pos, ofInt c.component, match c.alleles with | some (a, b) => ofNatList [a, b] | none => Json.null]
 
+
+/-! ### round 10: the whole run, the composition with haplotag, the reader's pairing -/
+
+def strs? (j : Json) (k : String) : Option (List String) := (getList? j k).bind (·.mapM asStr?)
+
+/-- a read of the tagged BAM: [sample of its read group, PS (−1 absent), HP (−1 absent), [[pos, allele, qual]…]] -/
+def aln? (j : Json) : Option (C10.Aln Payload) := do
+  match ← asArr? j with
+  | [sm, ps, hp, vs] =>
+    let ps ← asInt? ps
+    let hp ← asInt? hp
+    some { rest := ⟨← asStr? sm, ← (← asArr? vs).mapM rv?⟩, name := "", unmapped := false, secondary := false,
+           supplementary := false, refStart := 0, refEnd := 0, bx := none,
+           tags := { hp := if hp < 0 then none else some hp.toNat, pc := none, ps := if ps < 0 then none else some ps } }
+  | _ => none
+
+def table? (j : Json) : Option SampleTab := do
+  some ⟨← getStr? j "name", ← (← getList? j "vars").mapM var?⟩
+
+def chrom? (j : Json) : Option ChromIn := do
+  let ref := match getStr? j "ref" with | some r => some r.toList.toArray | none => none
+  some ⟨← getStr? j "name", ref, ← getBool? j "inBam", ← (← getList? j "tables").mapM table?,
+        ← (← getList? j "reads").mapM aln?, []⟩
+
+def runErrName : RunErr → String
+  | .referenceMissing => "reference-missing" | .needSampleOption => "need-sample-option"
+  | .chromNotInFasta c => "chrom-not-in-fasta:" ++ c | .chromNotInBam c => "chrom-not-in-bam:" ++ c
+  | .sample c s e => "sample:" ++ c ++ ":" ++ s ++ ":" ++ errName e
+
+def ofPhaseOut (cs : List Cons) (vars : List VarInfo) : Json :=
+  ofList (fun (v : VarInfo) => Json.arr #[ofNat v.pos,
+    match phaseOut cs v.pos with
+    | some (ps, a, b) => Json.arr #[ofInt ps, ofNat a, ofNat b]
+    | none => Json.null]) vars
+
+def phaseInfo? (j : Json) : Option C10.PhaseInfo := do
+  (← asArr? j).mapM fun e => do
+    match ← asArr? e with
+    | [p, ps, al] => some (← asNat? p, (← asInt? ps, ← natList? al))
+    | _ => none
+
+def handle2 (op : String) (j : Json) : Option Json :=
+  if op == "c17.runfile" then
+    match getBool? j "reference", getBool? j "ignoreRG", strs? j "chromosomes", getBool? j "onlyIndels", getNat? j "gap",
+      getNat? j "cut", strs? j "samples", strs? j "bamSamples", (getList? j "chroms").bind (·.mapM chrom?) with
+    | some rf, some ig, some chs, some oi, some gap, some cut, some samples, some bam, some chroms =>
+      let opts : Opts := { reference := rf, ignoreRG := ig, chromosomes := chs, par := ⟨oi, gap, cut⟩ }
+      match runFile opts samples bam chroms with
+      | .error e => some (Json.mkObj [("error", Json.str (runErrName e))])
+      | .ok outs =>
+        some (Json.mkObj [("chroms", ofList (fun (oc : ChromOut × ChromIn) =>
+          Json.mkObj [("name", Json.str oc.1.name), ("requested", Json.bool (!oc.1.cons.isEmpty || oc.2.tables.isEmpty)),
+            ("samples", ofList (fun (sc : String × List Cons) =>
+              Json.mkObj [("name", Json.str sc.1),
+                ("out", ofPhaseOut sc.2 (((oc.2.tables.find? (·.name == sc.1)).map (·.vars)).getD []))]) oc.1.cons)])
+          (outs.zip chroms))])
+    | _, _, _, _, _, _, _, _, _ => some badInput
+  else if op == "c17.compose" then
+    -- the tags the C10 model writes on reads with alleles `full` against the phased VCF `info`, as haplotagphase reads them
+    match (getObj? j "info").bind phaseInfo?, (getList? j "reads").bind (·.mapM fun r => (asArr? r).bind (·.mapM rv?)) with
+    | some info, some reads =>
+      some (ofList (fun (full : List RV) =>
+        let t := treadOf (tagRead info "" full)
+        Json.arr #[ofInt t.ps, ofInt t.hp]) reads)
+    | _, _ => some badInput
+  else if op == "c17.pairs" then
+    match (getList? j "variants").bind (·.mapM fun v => do
+        match ← asArr? v with
+        | [p, s] => some (⟨← asNat? p, ← asBool? s⟩ : TabVar)
+        | _ => none),
+      (getList? j "genotypes").bind (·.mapM natList?) with
+    | some vs, some gs =>
+      let enc := ofList (fun (p : TabVar × List Nat) => Json.arr #[ofNat p.1.pos, ofNatList p.2])
+      some (Json.mkObj [("pairs", enc (realignPairs vs gs)), ("shifted", enc (realignPairsShifted vs gs))])
+    | _, _ => some badInput
+  else none
+
 def handle (op : String) (j : Json) : Option Json :=
+  match handle2 op j with
+  | some r => some r
+  | none =>
   if op == "c17.run" then
     match getBool? j "repaired", getBool? j "onlyIndels", getNat? j "gap", getNat? j "cut", getStr? j "ref",
       (getList? j "vars").bind (·.mapM var?), (getList? j "reads").bind (·.mapM read?) with
